@@ -47,6 +47,8 @@ public:
    */
   double Pij(size_t i, size_t j) const override
   {
+    if (getNumberOfStates() == 1)
+      return 1.; // a single state can only be followed by itself
     return (i == j) ? vAutocorrel_[i] : (1 - vAutocorrel_[i]) / static_cast<double>(getNumberOfStates() - 1);
   }
 
